@@ -126,6 +126,13 @@ package redisemu
 //@ loop 1 invariant [C18] ops.wf: allabs(i, 0, len(ops), bfOpWF(ops[i]))
 //@ loop 2 invariant [C18] ops.wf: allabs(i, 0, len(ops), bfOpWF(ops[i]))
 //@ loop 3 invariant [C18] ops.wf: allabs(i, 0, len(ops), bfOpWF(ops[i]))
+// OVERFLOW is sticky: a sub-command runs under the directive attached to it, or else under the mode of the sub-command before it (WRAP for the first).
+// gModes records the mode given to the sub-command at each position, in order.
+//@ ghost gModes seqof:int
+//@ ghostbefore "op.oflow = oflow" : gModes = seqins(gModes, ri3, int(oflow))
+//@ loop 3 invariant [C18] overflow.running: (ri3 == 0 ==> oflow == OFLOW_WRAP) && (ri3 > 0 ==> int(oflow) == gModes[ri3-1])
+//@ loop 3 invariant [C18] overflow.first: ri3 > 0 ==> gModes[0] == ite(haskey(oflowChanges, ops[0].argIndex), int(oflowChanges[ops[0].argIndex]), int(OFLOW_WRAP))
+//@ loop 3 invariant [C18] overflow.sticky: allabs(i, 1, ri3, gModes[i] == ite(haskey(oflowChanges, ops[i].argIndex), int(oflowChanges[ops[i].argIndex]), gModes[i-1]))
 //@ loop 1 invariant lockMode(ctx.dsc) && dscOK(ctx.dsc) && !mutated && !bumped && !removedKey && !gApplied
 //@ loop 2 invariant lockMode(ctx.dsc) && dscOK(ctx.dsc) && !mutated && !bumped && !removedKey && !gApplied
 //@ loop 3 invariant lockMode(ctx.dsc) && dscOK(ctx.dsc) && !mutated && !bumped && !removedKey && !gApplied
